@@ -194,9 +194,18 @@ def build(E):
         return z3.And(z3.PrefixOf(GEM, up.z), z3.PrefixOf(base, su.z), starts_with_delim(rest), z3.Not(z3.SuffixOf(SV("/"), su.z)),
                       z3.PrefixOf(su.z, up.z),
                       ctx.getf(h, "prefix").z == args[2].z, ctx.getf(h, "strip_prefix").z == args[3].z)
+    def init_own_client(ctx, old, args, outcome):
+        if outcome[0] == "raise":
+            return None
+        h = args[0]
+        cl = ctx.force(ctx.getf(h, "_client"))
+        t = ctx.force(ctx.getf(h, "timeout"))
+        fresh = isinstance(cl, VObj) and cl.cls == CL and cl.oid not in old.snap
+        return z3.And(z3.BoolVal(bool(fresh)), t.z == args[4].z if hasattr(t, "z") else z3.BoolVal(False))
     E.contracts[f"{PX}.__init__"] = Contract(
         f"{PX}.__init__", make_args=init_args,
-        ensures=[("establishes the class invariant (same authority, no trailing '/', prefix/strip as configured); refuses non-gemini upstreams with ValueError", init_post)])
+        ensures=[("establishes the class invariant (same authority, no trailing '/', prefix/strip as configured); refuses non-gemini upstreams with ValueError", init_post),
+                 ("[C18] the handler talks to its upstream through a client of its own, constructed by this constructor (no other location's client, timeout or connection state), and keeps its own timeout", init_own_client)])
 
     spec.targets = [f"{PX}._handle_async", f"{PX}.handle", f"{PX}.__init__"]
     spec.keep = lambda name: "[C18]" not in name
